@@ -28,6 +28,17 @@ def content(size, ending, rnd):
         k = out.rfind("\n", 0, size)
         tail = size - k - 1
         out = out[:k + 1] + (";" + " mov rax, [" * 40)[:tail]
+    elif ending in ("lastinstr", "lastret"):
+        # the last line is a complete, valid instruction without a newline: every byte of the file matters
+        last = "add rax, 0x12" if ending == "lastinstr" else "ret"
+        if size <= len(last):
+            return last[:size].ljust(size, ";") if size < len(last) else last
+        body = size - len(last)
+        k = out.rfind("\n", 0, body)
+        head = out[:k + 1]
+        fill = body - len(head)
+        head += (";" + "z" * (fill - 2) + "\n") if fill >= 2 else ("\n" * fill)
+        out = head + last
     elif ending == "instr":
         k = out.rfind("\n", 0, size)
         tail = size - k - 1
@@ -47,7 +58,7 @@ def run(tier):
     cases, meta = [], []
     fid = 0
     for size in sizes:
-        for ending in ("nl", "nonl", "comment", "instr"):
+        for ending in ("nl", "nonl", "comment", "instr", "lastinstr", "lastret"):
             text = content(size, ending, rnd)
             assert len(text) == size, (size, ending, len(text))
             fid += 1
@@ -139,7 +150,7 @@ def run(tier):
                 v.violation(case, "bin-file-content-differs", "file %s bytes vs %d" % (None if data is None else len(data) // 2, off))
             else:
                 v.distinct((kind, off))
-    v.cov["rule"] = ("file contents of EVERY size 0..64 and every size within +/-16 of 1, 2 and 3 pages x 4 endings (newline, none, inside a comment, inside an instruction; CRLF lines inside) x both file entry points, "
+    v.cov["rule"] = ("file contents of EVERY size 0..64 and every size within +/-16 of 1, 2 and 3 pages x 6 endings (newline, none, inside a comment, inside an instruction, a complete instruction / ret as last line without newline; CRLF lines inside) x both file entry points, "
                      "differentially against the string entry points on the same content (rc, offset, count, FNV of the code); ld --wrap mmap puts a PROT_NONE page right after every non-executable mapping the "
                      "library creates, so a missing terminator faults deterministically; missing / directory / ENOTDIR paths must fail and leave the instance usable; asm_create_bin_file at offsets 0,1,2,19,4095..4097,6000,20000 must equal [0,offset)")
     v.cov["exhaustive"] = True
